@@ -28,6 +28,7 @@ CONSTANTS Win, InitW, InitPCT, InitCertT, Gens,    \* Gens: generator list (sequ
           ParamChoices,   \* sequence of [pcT, certT, w, gens] a block may switch to
           MaxChg, MaxLen, Now, MaxSteps, MaxDel, MaxTie,
           Mutations,      \* set of mutation names enabled in this configuration
+          DeepRevert,     \* TRUE: deletes / restarts / tie breaks only once something is final (simulation runs aimed at reverts down to the finalized height)
           DumpEvery
 
 VARIABLES chain, vstack, fin, temp, evlog, script,
@@ -175,7 +176,7 @@ Probes ==
 NDel == Cardinality({i \in 1..Len(script) : script[i].op = "delete"})
 NRestart == Cardinality({i \in 1..Len(script) : script[i].op = "restart"})
 DeleteTip ==
-  /\ Len(script) < MaxSteps /\ Len(chain) > 0 /\ NDel < MaxDel /\ UNCHANGED recvKnown
+  /\ Len(script) < MaxSteps /\ Len(chain) > 0 /\ NDel < MaxDel /\ UNCHANGED recvKnown /\ (DeepRevert => fin > 0)
   /\ \E saveTemp \in BOOLEAN :
        IF Tip.h <= fin
        THEN /\ script' = Append(script, [op |-> "delete", saveTemp |-> saveTemp, ok |-> FALSE, events |-> <<>>, obs |-> Obs(chain, vstack, fin, temp, evlog)])
@@ -187,6 +188,28 @@ DeleteTip ==
             /\ fin' = fin
             /\ script' = Append(script, [op |-> "delete", saveTemp |-> saveTemp, ok |-> TRUE, events |-> <<<<"delete", Tip.h, 0>>>>,
                                          obs |-> Obs(chain', vstack', fin, temp', evlog')])
+
+\* what a synchronisation with a peer whose chain forks below the finalized height does (deleteTillCommonBlock):
+\* tips are removed (kept as temporary blocks) one after the other until deleteBlock refuses at the finalized height.
+\* One model action, recorded as the individual delete steps with the expected observation after each.
+RECURSIVE DownSteps(_, _, _, _)
+DownSteps(ch, vs, tp, ev) ==
+  IF Len(ch) = 0 THEN <<>>
+  ELSE IF ch[Len(ch)].h <= fin
+       THEN <<[op |-> "delete", saveTemp |-> TRUE, ok |-> FALSE, events |-> <<>>, obs |-> Obs(ch, vs, fin, tp, ev)]>>
+       ELSE LET h == ch[Len(ch)].h
+                ch2 == SubSeq(ch, 1, Len(ch) - 1)  vs2 == SubSeq(vs, 1, Len(vs) - 1)
+                tp2 == tp \cup {h}  ev2 == Append(ev, <<"delete", h, 0>>)
+            IN <<[op |-> "delete", saveTemp |-> TRUE, ok |-> TRUE, events |-> <<<<"delete", h, 0>>>>, obs |-> Obs(ch2, vs2, fin, tp2, ev2)]>>
+               \o DownSteps(ch2, vs2, tp2, ev2)
+DeleteDown ==
+  /\ Len(script) < MaxSteps /\ NDel < MaxDel /\ fin > 0 /\ Len(chain) > fin /\ UNCHANGED recvKnown
+  /\ chain' = SubSeq(chain, 1, fin)
+  /\ vstack' = SubSeq(vstack, 1, fin + 1)
+  /\ temp' = temp \cup (fin + 1)..Len(chain)
+  /\ evlog' = evlog \o [i \in 1..(Len(chain) - fin) |-> <<"delete", Len(chain) + 1 - i, 0>>]
+  /\ fin' = fin
+  /\ script' = script \o DownSteps(chain, vstack, temp, evlog)
 
 \* LIP-0014 tie break: a block competing with the tip (same height, same maxHeightPrevoted, same parent) by the
 \* generator of the current slot Now, received within its slot, while the tip (of an earlier slot) was not: the tip
@@ -217,7 +240,7 @@ DoubleForgeProbe ==
 
 NTie == Cardinality({i \in 1..Len(script) : script[i].op = "tiebreak"})
 SubmitTieBreak ==
-  /\ Len(script) < MaxSteps /\ Len(chain) >= 1 /\ Tip.slot < Now /\ NTie < MaxTie
+  /\ Len(script) < MaxSteps /\ Len(chain) >= 1 /\ Tip.slot < Now /\ NTie < MaxTie /\ (DeepRevert => fin > 0)
   /\ UNCHANGED recvKnown        \* the tie-break branch is entered only when it is already TRUE
   /\ LET c == TieBreakCand IN
      /\ c.gen # Tip.gen                       \* same generator would be double forging (discarded)
@@ -236,12 +259,12 @@ SubmitTieBreak ==
                 /\ script' = Append(script, [Step(c, TRUE, chain', vstack', f2, temp, evlog', ne) EXCEPT !.op = "tiebreak"])
 
 Restart ==
-  /\ Len(script) < MaxSteps /\ Len(script) > 0 /\ NRestart < 1
+  /\ Len(script) < MaxSteps /\ Len(script) > 0 /\ NRestart < 1 /\ (DeepRevert => fin > 0)
   /\ script' = Append(script, [op |-> "restart", obs |-> Obs(chain, vstack, fin, temp, evlog)])
   /\ recvKnown' = FALSE
   /\ UNCHANGED <<chain, vstack, fin, temp, evlog>>
 
-Next == SubmitValid \/ SubmitTieBreak \/ DeleteTip \/ Restart
+Next == SubmitValid \/ SubmitTieBreak \/ DeleteTip \/ DeleteDown \/ Restart
 Spec == Init /\ [][Next]_vars
 
 (* ------------------------------- properties ------------------------------ *)
